@@ -77,6 +77,7 @@ Qed.
 Lemma uv_az_in na i : (i < na)%nat -> In (INR i * (2 * PI / INR na)) (uv_azimuth ROps na).
 Proof.
   intros Hi. unfold uv_azimuth, linspace. cbn [andb]. rewrite ofN_R. unfold c0, twopi, c2. rsimpl.
+  replace (na =? 0)%nat with false by (symmetry; apply Nat.eqb_neq; lia).
   apply in_map_iff. exists i. split; [|apply in_seq; lia]. rewrite ofN_R. field.
   apply not_0_INR. lia.
 Qed.
@@ -94,6 +95,7 @@ Proof.
   unfold uv_polar. apply filter_In. split.
   - unfold linspace. cbn [andb]. replace (1 <? S m)%nat with true by (symmetry; apply Nat.ltb_lt; lia).
     rewrite removelast_map_seq. replace (S m - 1)%nat with m by lia. rewrite ofN_R.
+    replace (m =? 0)%nat with false by (symmetry; apply Nat.eqb_neq; lia).
     unfold deg2rad, c0. rsimpl.
     destruct (Nat.eq_dec j m) as [->|Hne].
     + apply in_or_app. right. left. field. lra.
